@@ -140,6 +140,9 @@ pub fn kind_of(any: AnyGc<'_>) -> Kind {
     match canon(any) {
         AnyGc::Node(_) => Kind::Node,
         AnyGc::Bag(_) => Kind::Bag,
+        AnyGc::ZLeaf(_) => Kind::ZLeaf,
+        AnyGc::SwhPod(g) => Kind::SwhPod { len: g.slice.len() as u8 },
+        AnyGc::CellP(_) => Kind::CellP,
         AnyGc::CopySlice(g) => Kind::CopySlice { len: g.len() as u8 },
         AnyGc::CopySwh(g) => Kind::CopySwh { len: g.slice.len() as u8 },
         AnyGc::Field(_) => Kind::Field,
@@ -164,6 +167,8 @@ pub fn stored_id(any: AnyGc<'_>) -> Option<Id> {
         AnyGc::Node(g) => Some(g.borrow().id),
         AnyGc::Bag(g) => Some(g.borrow().id),
         AnyGc::CopySwh(g) => Some(g.header.id),
+        AnyGc::SwhPod(g) => Some(g.header.id),
+        AnyGc::CellP(g) => Some({ let b = g.get(); b.id }),
         AnyGc::Field(g) => Some(g.id),
         AnyGc::Raw(g) => Some(g.id),
         AnyGc::Cell(g) => Some(g.get().0),
@@ -281,6 +286,20 @@ pub fn alloc<'gc>(mc: &Mutation<'gc>, kind: Kind, id: Id) -> AnyGc<'gc> {
             let _t = seam::track();
             AnyGc::Swh(GcSliceWithHeaderBuilder::<SwhHead<'gc>, SliceElem<'gc>>::new(len as usize).write_header(h).write_slice_with(mc, |_| Lock::new(None)))
         }
+        Kind::ZLeaf => {
+            let v = crate::tok::ZTok::new();
+            let _t = seam::track();
+            AnyGc::ZLeaf(if id % 2 == 0 { Gc::new(mc, v) } else { Gc::new_static(mc, v) })
+        }
+        Kind::SwhPod { len } => {
+            let h = SwhHead { id, tok: Tok(id), fp: FaultPoint(id), slot: Lock::new(None) };
+            let _t = seam::track();
+            AnyGc::SwhPod(GcSliceWithHeaderBuilder::<SwhHead<'gc>, u8>::new(len as usize).write_header(h).write_slice_with(mc, |i| i as u8))
+        }
+        Kind::CellP => {
+            let _t = seam::track();
+            AnyGc::CellP(Gc::new(mc, Lock::new(PackedBody { tag: 0x5A, id, e: None, w: None })))
+        }
         Kind::Bag => {
             let mut hm: HashMap<u8, Edge<'gc>, FixedHasher> = HashMap::default();
             hm.insert(0, None);
@@ -326,7 +345,12 @@ pub fn read_strong<'gc>(any: AnyGc<'gc>, k: usize) -> Edge<'gc> {
                 g.slice[k - 1].get()
             }
         }
-        AnyGc::Opaque(_) => None,
+        AnyGc::Opaque(_) | AnyGc::ZLeaf(_) => None,
+        AnyGc::SwhPod(g) => g.header.slot.get(),
+        AnyGc::CellP(g) => {
+            let b = g.get();
+            b.e
+        }
         AnyGc::CopySlice(g) => g[k],
         AnyGc::CopySwh(g) => {
             if k == 0 {
@@ -410,6 +434,10 @@ pub fn read_weak<'gc>(any: AnyGc<'gc>, k: usize) -> WEdge<'gc> {
         },
         AnyGc::Raw(g) => g.w[k].get(),
         AnyGc::Cell(g) => g.get().2,
+        AnyGc::CellP(g) => {
+            let b = g.get();
+            b.w
+        }
         _ => None,
     }
 }
@@ -468,7 +496,20 @@ pub fn write_strong<'gc>(mc: &Mutation<'gc>, any: AnyGc<'gc>, self_id: Id, k: us
             }
             Wrote::Done
         }
-        AnyGc::Opaque(_) | AnyGc::CopySlice(_) | AnyGc::CopySwh(_) => Wrote::Refused,
+        AnyGc::Opaque(_) | AnyGc::CopySlice(_) | AnyGc::CopySwh(_) | AnyGc::ZLeaf(_) => Wrote::Refused,
+        AnyGc::SwhPod(g) => {
+            field!(field!(Gc::write(mc, g), SliceWithHeader, header), SwhHead, slot).unlock().set(v);
+            Wrote::Done
+        }
+        AnyGc::CellP(g) => {
+            let mut cur = g.get();
+            cur.e = v;
+            match route {
+                Route::WriteUnlock => g.unlock(mc).set(cur),
+                _ => g.set(mc, cur),
+            }
+            Wrote::Done
+        }
         AnyGc::ThinSlice(_) | AnyGc::ThinSwh(_) | AnyGc::NodeE(_) | AnyGc::NodeD(_) | AnyGc::NodeM(_) => unreachable!(),
         AnyGc::Node(g) => {
             match route {
@@ -641,6 +682,15 @@ pub fn write_weak<'gc>(mc: &Mutation<'gc>, any: AnyGc<'gc>, k: usize, route: Rou
             }
             Wrote::Done
         }
+        AnyGc::CellP(g) => {
+            let mut cur = g.get();
+            cur.w = v;
+            match route {
+                Route::WriteUnlock => g.unlock(mc).set(cur),
+                _ => g.set(mc, cur),
+            }
+            Wrote::Done
+        }
         _ => Wrote::Refused,
     }
 }
@@ -670,6 +720,7 @@ pub fn touch<'gc>(mc: &Mutation<'gc>, any: AnyGc<'gc>) {
             let _ = g.borrow_mut(mc);
         }
         AnyGc::Cell(g) => g.set(mc, g.get()),
+        AnyGc::CellP(g) => g.set(mc, g.get()),
         other => {
             let _ = match other {
                 AnyGc::Field(g) => {
